@@ -1140,7 +1140,9 @@ func wrapAny(val Node, targetType *Type) Node {
 			return v
 		case *BinaryExpression:
 			v.Left = wrapAny(v.Left, targetType)
-			v.Right = wrapAny(v.Right, targetType)
+			if v.Op != OP_ASTERISK { // the right operand of a repetition is its count
+				v.Right = wrapAny(v.Right, targetType)
+			}
 			v.T = targetType
 			return v
 		case *GroupExpression:
@@ -1183,7 +1185,9 @@ func wrapAny(val Node, targetType *Type) Node {
 		switch v := val.(type) {
 		case *BinaryExpression:
 			v.Left = wrapAny(v.Left, targetType)
-			v.Right = wrapAny(v.Right, targetType)
+			if v.Op != OP_ASTERISK { // the right operand of a repetition is its count
+				v.Right = wrapAny(v.Right, targetType)
+			}
 			v.T = targetType
 			return v
 		case *GroupExpression:
